@@ -135,6 +135,8 @@ pub fn domain(f: Family, k: Kind, refs: &Refs, level: u8) -> Vec<Vec<u8>> {
 				segs.push("é");
 			}
 			x.extend(domains::paths(&v(&segs), if level >= 1 { 3 } else { 2 }));
+			// deeper dot-segment structure: PATH(4) over {.., ., a}
+			x.extend(domains::paths(&v(&["..", ".", "a"]), 4));
 			x
 		}
 		Kind::Authority => {
@@ -181,6 +183,9 @@ pub fn domain(f: Family, k: Kind, refs: &Refs, level: u8) -> Vec<Vec<u8>> {
 					// a query / fragment holding its own delimiter, and near misses
 					"s://h/p?a?b".to_string(), "s://h/p?a?c".to_string(), "s://h/p?a".to_string(), "s://h/p?a%3Fb".to_string(), "s://h/p?x?y#f".to_string(), "s://h/p?x?y#g".to_string(),
 					"s://h/p?x?y".to_string(), "s://h/p#a?b".to_string(), "s://h/p#a?c".to_string(), "s://h/p#a".to_string(), "s:a:b".to_string(), "s:a:c".to_string(), "s:a".to_string(),
+					// equal values of very different LENGTHS (dot segments lengthen without bound)
+					"s:".to_string(), "s:./././.".to_string(), "s:/".to_string(), "s:/a/../b/../c/..".to_string(), "s:/a/../b/../c/../".to_string(), "s://h/A".to_string(),
+					"s://h/./a/../%41".to_string(), "s://h/./a/b/c/../../../d/../././A".to_string(), "s:../a/../..".to_string(), "s:../..".to_string(),
 					"s://[::a]/p".to_string(), "s://[::A]/p".to_string(), "s://h:9/".to_string(), "s://h:10/".to_string(), "s://h:70000/".to_string(),
 					"s://[::1]/a".to_string(), "s://%5B%3A%3A1%5D/a".to_string(), "s://[::01]/a".to_string(), "s://u%40h/a".to_string(), "s://u@h/a".to_string(),
 					"s://h%3A80/a".to_string(), "s://h:80/a".to_string(), "s://[::1]".to_string(), "s://%5B%3A%3A1%5D".to_string(),
